@@ -286,6 +286,32 @@ func rulesC11(e *Engine, r *Report) {
 	e.checkGapScan(r, "R11.6")
 	// ---------------------------------------------------------------- R11.7
 	e.shareRule(r, "C19", "R19.4", "R11.7", "chunks have a positive size: the queue tag's chunk size is the tag's, else the source's bin size - never 0 (a resumed file's allocator has no `0 = the rest` convention: it would hand out empty chunks for ever and the missing ranges would never be tiled)")
+	// ---------------------------------------------------------------- R11.8
+	r.Rule("R11.8", "a file sent again whole is sent whole: wherever the sender builds a recovered file whose single missing range starts at 0 (retry after a failed or lost validation, recovery of a failed file), the range ends at the size of the cache entry stored in the same record - not at a size taken from the polled object, which for a resumed file is the number of bytes that were to be sent")
+	{
+		n := 0
+		for _, name := range []string{"client.(*Broker).startRetry", "client.(*Broker).recover"} {
+			fn := needFn(e, r, "R11.8", name)
+			if fn == nil {
+				continue
+			}
+			cached := map[string]bool{}
+			for _, v := range e.fieldStoreVals(fn, "client.recoverFile", "Cached") {
+				cached["invoke(sts.Cached.GetSize)("+v+")"] = true
+			}
+			begs := e.fieldStoreVals(fn, "sts.ByteRange", "Beg")
+			ends := e.fieldStoreVals(fn, "sts.ByteRange", "End")
+			for i, b := range begs {
+				if b != "0" || i >= len(ends) {
+					continue
+				}
+				n++
+				r.Check(cached[ends[i]], "R11.8", fmt.Sprintf("%s: whole-file range #%d ends at the cache entry's size", name, n), e.Pos(fn.Pos()),
+					"the range {0, "+shorten(ends[i])+"} does not end at the size of a cache entry stored as the recovered file's Cached", 1, ends[i])
+			}
+		}
+		r.Min("R11.8", "whole-file ranges built for re-sending", n, 2)
+	}
 }
 
 // checkRecoverAllocate: the allocator of a resumed file hands out exactly its
